@@ -16,14 +16,15 @@ import (
 // inside the bridge), while the sender writes more than the socket buffers hold and then closes.
 var recS = vh.NewRecorder("C16", "stalled-reader",
 	"3 bridged connections at a time: the client or the server writes 8-32 MiB and closes, the other peer starts reading "+
-		"only 11-13 s later (back-pressure through both bridge processes in between); oracle: the late reader receives every "+
+		"only 11-13 s later and then at full speed or pausing 1-3 ms per 32 KiB (back-pressure through both bridge processes in between); oracle: the late reader receives every "+
 		"byte written before the close and then end-of-stream, and the writer's writes do not fail; non-trivial = every case; "+
 		"distinct = SHA-256 of the canonical case")
 
 type Stall struct {
-	Sender string `json:"sender"` // client | server
-	MiB    int    `json:"mib"`
-	StallS int    `json:"reader_idle_s"`
+	Sender  string `json:"sender"` // client | server
+	MiB     int    `json:"mib"`
+	StallS  int    `json:"reader_idle_s"`
+	PauseUs int    `json:"reader_pause_us,omitempty"` // pause after every read of up to 32 KiB once the reader has started
 }
 
 type StallCase struct {
@@ -73,7 +74,7 @@ func runStall(r *rig, i int, s Stall) error {
 		werr <- e
 	}()
 	time.Sleep(time.Duration(s.StallS) * time.Second)
-	got, ended, rerr := readUntilEOS(to, 60*time.Second)
+	got, ended, rerr := readSlowlyUntilEOS(to, 90*time.Second, time.Duration(s.PauseUs)*time.Microsecond)
 	select {
 	case e := <-werr:
 		if e != nil {
@@ -126,9 +127,10 @@ func TestPropStalledReader(t *testing.T) {
 		var c StallCase
 		for i := 0; i < 3; i++ {
 			c.Conns = append(c.Conns, Stall{
-				Sender: rapid.SampledFrom([]string{"server", "client"}).Draw(rt, "sender"),
-				MiB:    rapid.SampledFrom([]int{16, 8, 32}).Draw(rt, "mib"),
-				StallS: rapid.SampledFrom([]int{11, 13}).Draw(rt, "stall"),
+				Sender:  []string{"client", "server", rapid.SampledFrom([]string{"server", "client"}).Draw(rt, "sender")}[i],
+				PauseUs: rapid.SampledFrom([]int{0, 1000, 3000}).Draw(rt, "pause"),
+				MiB:     rapid.SampledFrom([]int{16, 8, 32}).Draw(rt, "mib"),
+				StallS:  rapid.SampledFrom([]int{11, 13}).Draw(rt, "stall"),
 			})
 		}
 		recS.Check(rt, &c, func() vh.Outcome { return runStallCase(rt, &c) })
